@@ -142,7 +142,8 @@ import numpy as np
 _NP_POOL = [np.arange(4), np.arange(4).reshape(2, 2), np.arange(4).reshape(4, 1), np.arange(4).astype("float64"),
             np.arange(4).astype("int32"), np.arange(8).astype("int32"), np.arange(4).view("float64"), np.zeros(4, dtype="int64"),
             np.zeros((2, 2), dtype="int64"), np.array([0, 1, 2, 3]), np.arange(4)[::-1].copy(),
-            np.arange(4).reshape(2, 2).T, np.asfortranarray(np.arange(4).reshape(2, 2)), np.arange(8)[::2], np.arange(4)[::-1]]
+            np.arange(4).reshape(2, 2).T, np.asfortranarray(np.arange(4).reshape(2, 2)), np.arange(8)[::2], np.arange(4)[::-1],
+            np.arange(20000), np.concatenate([np.arange(19999), [7]]), np.arange(16384 + 3), np.concatenate([np.arange(16384 + 2), [1]])]
 
 def _np_same(a, b):
     """same logical array: shape, element type and elements in index order (memory layout is not part of the value)"""
@@ -261,7 +262,7 @@ def build(tier, seed, exclude):
             return T.fail(lambda: "types %r and %r: hashes %s" % (_TYPE_POOL[i], _TYPE_POOL[j], "equal" if h1 == h2 else "differ"))
         return True
     """, timeout=to * 2)
-    np_pre = ["0 <= i < 15 and 0 <= j < 15"]
+    np_pre = ["0 <= i < 19 and 0 <= j < 19"]
     if "C08-array-shape-dtype" in exclude:
         np_pre.append("_NP_POOL[i].tobytes() != _NP_POOL[j].tobytes() or _NP_POOL[i].size != _NP_POOL[j].size or _np_same(_NP_POOL[i], _NP_POOL[j])")
     g.cond("h_numpy_pool", "i: int, j: int", np_pre, """
@@ -288,4 +289,4 @@ def build(tier, seed, exclude):
         return T.fail(err) if err else True
     """)
     return g.spec(bounds={"strings/bytes": "<= 2 (<= 1 inside containers)", "containers": "<= 2-3 elements", "nesting": "<= 2",
-                          "type pairs": len(pairs), "object attribute pool": 11, "type pool": 13, "array pool": "15 (shapes, dtypes, views, Fortran order, negative strides)"})
+                          "type pairs": len(pairs), "object attribute pool": 11, "type pool": 13, "array pool": "19 (shapes, dtypes, views, Fortran order, negative strides, arrays of > 16384 elements differing in the last element)"})
